@@ -549,12 +549,14 @@ def install(ctx):
     import geometer.operators as O
     import geometer.point as P
 
-    core.wrap_method(P.LineTensor, "perpendicular", post_perpendicular)
-    core.wrap_method(P.PlaneTensor, "perpendicular", post_perpendicular)
-    core.wrap_method(P.SubspaceTensor, "parallel", post_parallel)
-    core.wrap_method(P.SubspaceTensor, "project", post_project)
-    core.wrap_method(P.LineTensor, "mirror", post_mirror)
-    core.wrap_method(P.PlaneTensor, "mirror", post_mirror)
+    # the constructions also leave the subspace and the point they are built from untouched
+    keep = lambda post: core.with_operands_unchanged(post, "operands")  # noqa: E731
+    core.wrap_method(P.LineTensor, "perpendicular", keep(post_perpendicular), pre=core.operand_bytes)
+    core.wrap_method(P.PlaneTensor, "perpendicular", keep(post_perpendicular), pre=core.operand_bytes)
+    core.wrap_method(P.SubspaceTensor, "parallel", keep(post_parallel), pre=core.operand_bytes)
+    core.wrap_method(P.SubspaceTensor, "project", keep(post_project), pre=core.operand_bytes)
+    core.wrap_method(P.LineTensor, "mirror", keep(post_mirror), pre=core.operand_bytes)
+    core.wrap_method(P.PlaneTensor, "mirror", keep(post_mirror), pre=core.operand_bytes)
     core.wrap_method(P.SubspaceTensor, "is_parallel", post_is_parallel)
     core.wrap_method(P.LineTensor, "base_point", post_base_point)
     core.wrap_method(P.LineTensor, "direction", post_direction)
